@@ -71,6 +71,7 @@ def instance_line(jobs) -> str:
 
 
 REUSE_OPERATIONS = False
+PRELABELLED = False    # set per scenario by framework.run_impl: the instance is rebuilt from already labelled operations, set_operation_attributes=False
 OP_SUBCLASS = False    # set per scenario by framework.run_impl: operations are instances of a user subclass with extra attributes
 SIBLING = False     # set per scenario by framework.run_impl: a busy sibling dispatcher on another instance in the same process
 
@@ -110,6 +111,9 @@ def build_instance(jobs, name="verif") -> JobShopInstance:
         if len(ops) >= 2:                  # and once more with another number of jobs
             JobShopInstance([flat[:1], flat[1:]], name="earlier2")
             JobShopInstance(earlier, name="earlier")
+    if PRELABELLED:
+        base = JobShopInstance(ops, name="base")
+        return JobShopInstance(base.jobs, name=name, set_operation_attributes=False)
     return JobShopInstance(ops, name=name)
 
 
@@ -354,6 +358,15 @@ class Impl:
         except Exception:  # pylint: disable=broad-except
             return "raise"
         return "raise"      # (an order that happens to admit a schedule after all: no claim either way)
+
+    def cmd_stamp(self, ts):
+        """The caller annotates the dispatcher's schedule: `Schedule.metadata` is the user's dictionary (the library's solvers put
+        their makespan, status and time there).  Whatever it says, it is a note - not a source of truth for anybody."""
+        sch = self.dispatcher.schedule
+        sch.metadata.update({"makespan": sch.makespan(), "status": "optimal", "elapsed_time": 0.25, "solved_by": "verif",
+                             "num_scheduled": sum(len(ms) for ms in sch.schedule), "is_complete": sch.is_complete(),
+                             "current_time": self.dispatcher.current_time()})
+        return "ok"
 
     def cmd_xform(self, ts):
         """Instance transformations (they return NEW instances) are applied to the instance under test; results are dropped."""
